@@ -57,7 +57,7 @@ def _sysroot():
 
 PROFILES = {
     # dev: overflow checks + debug assertions on (superset of panic sites)
-    "dev": {"rustflags": "-Zmir-opt-level=0 -Zalways-encode-mir -Awarnings", "cargo": []},
+    "dev": {"rustflags": "-Zmir-opt-level=0 -Zalways-encode-mir -Awarnings -Wunsafe_code", "cargo": []},
     # release-like MIR: overflow checks off
     "release": {"rustflags": "-Zmir-opt-level=0 -Zalways-encode-mir -Awarnings -Coverflow-checks=off -Cdebug-assertions=off", "cargo": []},
 }
@@ -97,13 +97,28 @@ def ensure_facts(profile="dev", repo=None, quiet=False):
         })
         env.pop("RUSTC_WRAPPER", None)
         t0 = time.time()
-        cmd = ["cargo", "+nightly", "check", "--offline", "-p", "falcon-rust", "--lib"]
-        p = subprocess.run(cmd, cwd=repo, env=env, stdout=subprocess.PIPE, stderr=subprocess.STDOUT, text=True)
+        cmd = ["cargo", "+nightly", "check", "--offline", "-p", "falcon-rust", "--lib", "--message-format=json"]
+        p = subprocess.run(cmd, cwd=repo, env=env, stdout=subprocess.PIPE, stderr=subprocess.PIPE, text=True)
+        lints = []
+        for line in p.stdout.splitlines():
+            try:
+                m = json.loads(line)
+            except ValueError:
+                continue
+            if m.get("reason") == "compiler-message":
+                msg = m.get("message", {})
+                code = (msg.get("code") or {}).get("code")
+                if code:
+                    sp = (msg.get("spans") or [{}])[0]
+                    lints.append({"code": code, "message": msg.get("message"), "file": sp.get("file_name"), "line": sp.get("line_start")})
+        p.stdout = p.stderr
         # the target dir is only a by-product
         shutil.rmtree(tgt, ignore_errors=True)
         if p.returncode != 0 or not os.path.exists(out + ".part"):
             shutil.rmtree(d, ignore_errors=True)
             raise CheckerError("fact extraction failed (does /repo compile?):\n" + p.stdout[-4000:])
+        with open(os.path.join(d, "lints.json"), "w") as fh:
+            json.dump(lints, fh)
         os.rename(out + ".part", out)
         if not quiet:
             print(f"[facts] extracted {profile} facts for tree {key} in {time.time()-t0:.1f}s", file=sys.stderr)
@@ -249,6 +264,11 @@ class Program:
         self.items = F["items"]
         self.statics = F["statics"]
         self.consts = F["consts"]
+        try:
+            with open(os.path.join(os.path.dirname(path), "lints.json")) as fh:
+                self.lints = json.load(fh)
+        except OSError:
+            self.lints = None
         self.load_s = time.time() - t0
 
     # ---- lookup
